@@ -62,9 +62,18 @@ func Commit(db objects.Store, rs ref.Store, id uuid.UUID) (commits map[string]*o
 	if err != nil {
 		return nil, err
 	}
+	// branches that a previous, interrupted run of this commit already moved
+	// (their reflog carries this transaction) are not committed a second time
+	done, err := rs.GetTransactionLogs(id)
+	if err != nil {
+		return nil, err
+	}
 	commits = map[string]*objects.Commit{}
 	buf := bytes.NewBuffer(nil)
 	for branch, sum := range m {
+		if _, ok := done[ref.HeadRef(branch)]; ok {
+			continue
+		}
 		com, err := objects.GetCommit(db, sum)
 		if err != nil {
 			return nil, err
